@@ -464,6 +464,30 @@ PROPERTIES["C09"] = dict(
     smt=dict(module="props_c09", K=6, N=24, timeout_ms=1500000),
 )
 
+# --------------------------------------------------------------------------- C15
+PROPERTIES["C15"] = dict(
+    title="Embeddable signing returns bytes of exactly the placeholder size",
+    level="model_checking",
+    engine="smt",
+    technique="symbolic execution of the Rust source (syn AST -> bit-vector SMT) of Builder::sign_embeddable and Builder::placeholder with every surrounding step (store building, signing, composing, hashing) replaced by unconstrained, possibly failing stubs, decided by z3; replay through the public API",
+    level_text=("Bounded symbolic checking of the two SOURCE functions that implement the placeholder contract: Builder::placeholder records the length "
+                "of the JUMBF it composes and hands out, and Builder::sign_embeddable brings the signed JUMBF to that length before composing.  The "
+                "signed JUMBF length, the recorded length and the outcome of every surrounding step are symbolic; z3 decides for ALL of them that "
+                "an Ok result for a data-hash (non-BMFF) format has EXACTLY the recorded length, that no format ever gets a shorter one, and that "
+                "placeholder() records exactly the length it composed."),
+    level_note=("Kernel level: the length logic only.  Store::sign_manifest, get_placeholder, get_composed_manifest, to_store, hashing and the "
+                "signer are stubs returning arbitrary lengths / failures (assumption: the composed length depends on the JUMBF length and the "
+                "format only).  BMFF is exempt from 'never longer' by the SDK's documented design (the caller reserves room for Merkle leaves).  "
+                "The older Store::get_data_hashed_embeddable_manifest path, real signing and read-back validity are outside."),
+    scope="sdk/src/builder.rs Builder::sign_embeddable, Builder::placeholder",
+    outside=["Builder::sign_data_hashed_embeddable / Store::get_data_hashed_embeddable_manifest (whole pipeline with real signing)",
+             "that a patched asset reads back Valid", "the composed (format-wrapped) length itself"],
+    assumptions=["z3 is sound for QF_BV", "the symbolic interpreter (symex.py) is faithful for the constructs it accepts (fails closed otherwise)",
+                 "stubs: every called Builder/Store/Signer/handler step returns an arbitrary length or fails; composing depends on the JUMBF length only"],
+    harnesses=[],
+    smt=dict(module="props_c15", K=6, N=24, timeout_ms=600000),
+)
+
 # --------------------------------------------------------------------------- C14
 PROPERTIES["C14"] = dict(
     title="Reserved-size padding is exact and signing succeeds for any ample reserve",
